@@ -6,6 +6,7 @@ import (
 	"sort"
 	"strings"
 	"testing"
+	"time"
 
 	"github.com/openziti/storage/ast"
 	"github.com/openziti/storage/boltz"
@@ -543,6 +544,7 @@ func TestC14(t *testing.T) {
 			"Non-trivial: >= 2 elements with a seek to an absent value, or the set contains the empty string, or the set is empty. Distinct by hash of the case JSON.",
 		Assumptions: []string{"the set-symbol runtime cursor is sought with SeekToString (the form the engine uses); its raw Seek is not exercised"},
 		Gen:         genC14, Run: runC14,
+		CaseTimeout: 5 * time.Minute,
 		QuickChecks: 40000, ThoroughFactor: 8,
 	})
 }
